@@ -1,6 +1,7 @@
 import RawPanelVerif.Model.DecOut
 import RawPanelVerif.Spec.GrammarOut
-import RawPanelVerif.Props.C07
+import RawPanelVerif.Lemmas.StripOneLine
+import RawPanelVerif.Lemmas.StripContent
 /-! Lemmas shared by Props/C03, Props/C04 and Lemmas/TotalOut: prefixes, spans, decimal numerals, dispatch of the Spec reader. -/
 namespace RawPanelVerif.OutLemmas
 open RawPanelVerif RawPanelVerif.Bytes RawPanelVerif.MsgOut RawPanelVerif.EncOut RawPanelVerif.DecOut
@@ -176,6 +177,7 @@ theorem event_line (o : OutOracle) (id : Nat) (hid : id ≤ u32Max) (edge : Int)
   unfold readEvent
   rw [splitOn_two 61 _ _ (hlhs 61 (by decide) (by decide)) hw]
   simp only []
+  rw [if_neg (by cases pressed <;> decide)]
   rw [readIdEdge_line id hid edge he]
   cases pressed
   · simp only [Bool.false_eq_true, if_false]
@@ -277,7 +279,7 @@ theorem not_mem_utoa (n : Nat) (c : UInt8) (hc : isDigit c = false) : c ∉ utoa
 theorem readLine_value (o : OutOracle) (id : Nat) (hid : id ≤ u32Max) (k v : Bytes)
     (hk61 : (61 : UInt8) ∉ k) (hk58 : (58 : UInt8) ∉ k) (hk10 : (10 : UInt8) ∉ k)
     (hv : ∀ c : UInt8, isDigit c = false → c ≠ 45 → c ∉ v)
-    (hkw : True ∧ k ++ 58 :: v ≠ asc "Down" ∧ k ++ 58 :: v ≠ asc "Up" ∧ k ++ 58 :: v ≠ asc "Press") :
+    (hkw : k ∈ kindWords ∧ k ++ 58 :: v ≠ asc "Down" ∧ k ++ 58 :: v ≠ asc "Up" ∧ k ++ 58 :: v ≠ asc "Press") :
     readLine o (valueLine id k v) =
       (match readInt v with
        | none => .outside
@@ -305,10 +307,13 @@ theorem readLine_value (o : OutOracle) (id : Nat) (hid : id ≤ u32Max) (k v : B
     · exact absurd h (by decide)
     · exact hv 61 (by decide) (by decide) h)]
   simp only []
+  have hko : kindOf (k ++ 58 :: v) = k := by
+    unfold kindOf
+    rw [splitOn_two 58 _ _ hk58 (hv 58 (by decide) (by decide))]
+  rw [hko, if_neg (fun hn => hn hkw.1)]
   rw [readIdEdge_plain id hid]
   simp only []
   rw [if_neg hkw.2.1, if_neg hkw.2.2.1, if_neg hkw.2.2.2]
-  simp only [Option.isSome_none, Bool.false_eq_true, if_false]
   rw [splitOn_two 58 _ _ hk58 (hv 58 (by decide) (by decide))]
   rfl
 
@@ -333,7 +338,7 @@ theorem enc_line (o : OutOracle) (id : Nat) (hid : id ≤ u32Max) (v : Int) (hv 
     readLine o (valueLine id (asc "Enc") (itoa v)) = .grammar [.event .enc id 0 false v] := by
   obtain ⟨h1, h2⟩ := inI32_range v hv
   rw [readLine_value o id hid _ _ (by decide) (by decide) (by decide) (hv_itoa v)
-    ⟨trivial, kind_colon_ne _ _ _ (by decide), kind_colon_ne _ _ _ (by decide), kind_colon_ne _ _ _ (by decide)⟩]
+    ⟨by decide, kind_colon_ne _ _ _ (by decide), kind_colon_ne _ _ _ (by decide), kind_colon_ne _ _ _ (by decide)⟩]
   rw [readInt_itoa v (by omega) (by omega)]
   simp [hv]
 
@@ -342,7 +347,7 @@ theorem speed_line (o : OutOracle) (id : Nat) (hid : id ≤ u32Max) (v : Int) (h
     readLine o (valueLine id (asc "Speed") (itoa v)) = .grammar [.event .speed id 0 false v] := by
   obtain ⟨h1, h2⟩ := inI32_range v hv
   rw [readLine_value o id hid _ _ (by decide) (by decide) (by decide) (hv_itoa v)
-    ⟨trivial, kind_colon_ne _ _ _ (by decide), kind_colon_ne _ _ _ (by decide), kind_colon_ne _ _ _ (by decide)⟩]
+    ⟨by decide, kind_colon_ne _ _ _ (by decide), kind_colon_ne _ _ _ (by decide), kind_colon_ne _ _ _ (by decide)⟩]
   rw [readInt_itoa v (by omega) (by omega)]
   simp only []
   rw [if_neg ne_SE, if_pos trivial, if_pos hv]
@@ -363,7 +368,7 @@ theorem readInt_utoa (n : Nat) (h : n ≤ u32Max) : readInt (utoa n) = some (n :
 theorem abs_line (o : OutOracle) (id : Nat) (hid : id ≤ u32Max) (v : Nat) (hv : v ≤ u32Max) :
     readLine o (valueLine id (asc "Abs") (utoa v)) = .grammar [.event .abs id 0 false v] := by
   rw [readLine_value o id hid _ _ (by decide) (by decide) (by decide) (hv_utoa v)
-    ⟨trivial, kind_colon_ne _ _ _ (by decide), kind_colon_ne _ _ _ (by decide), kind_colon_ne _ _ _ (by decide)⟩]
+    ⟨by decide, kind_colon_ne _ _ _ (by decide), kind_colon_ne _ _ _ (by decide), kind_colon_ne _ _ _ (by decide)⟩]
   rw [readInt_utoa v hv]
   simp only []
   rw [if_neg ne_AE, if_neg ne_AS, if_pos trivial, if_pos ⟨by omega, utoa_head_ne_dash v⟩]
@@ -372,7 +377,7 @@ theorem abs_line (o : OutOracle) (id : Nat) (hid : id ≤ u32Max) (v : Nat) (hv 
 theorem raw_line (o : OutOracle) (id : Nat) (hid : id ≤ u32Max) (v : Nat) (hv : v ≤ u32Max) :
     readLine o (valueLine id (asc "Raw") (utoa v)) = .grammar [.event .raw id 0 false v] := by
   rw [readLine_value o id hid _ _ (by decide) (by decide) (by decide) (hv_utoa v)
-    ⟨trivial, kind_colon_ne _ _ _ (by decide), kind_colon_ne _ _ _ (by decide), kind_colon_ne _ _ _ (by decide)⟩]
+    ⟨by decide, kind_colon_ne _ _ _ (by decide), kind_colon_ne _ _ _ (by decide), kind_colon_ne _ _ _ (by decide)⟩]
   rw [readInt_utoa v hv]
   simp only []
   rw [if_neg ne_RE, if_neg ne_RS, if_neg ne_RA, if_pos trivial, if_pos ⟨by omega, utoa_head_ne_dash v⟩]
